@@ -155,6 +155,8 @@ func (p *hPeer) respond(reqID int, o Outcome, late []*Msg) {
 		}
 		p.send(&Msg{ReqID: reqID, Part: "final"})
 	case OSilence, OSilenceLate:
+	case OChatter:
+		p.chatter(reqID)
 	case OPartialSilence:
 		for i := 0; i < o.N; i++ {
 			if !p.send(&Msg{ReqID: reqID, Part: "partial"}) {
